@@ -2,6 +2,7 @@ package url
 
 import (
 	"fmt"
+	"strings"
 )
 
 // Format formats a URL into a human-readable (and reparsable) format.
@@ -69,8 +70,11 @@ func (u *URL) formatDocker(environmentPrefix string) string {
 	// Start with the container name.
 	result := u.Host
 
-	// Add username if present.
-	if u.User != "" {
+	// Add username if present. An empty username is normally omitted, but if
+	// the container name itself contains an '@' (which is only possible if the
+	// URL was specified with an explicitly empty username), then the empty
+	// username has to be written explicitly for the result to be reparsable.
+	if u.User != "" || strings.ContainsRune(u.Host, '@') {
 		result = fmt.Sprintf("%s@%s", u.User, result)
 	}
 
